@@ -26,7 +26,11 @@ RULE = ("C05's operator-level generator with solver='sat': 1-5 variables, domain
         "constraints per model (mostly 1) over every kind: ==/!= relations of every shape, eq/ne const/var, "
         "all_different, sum_eq/le/ge with 1-5 terms, circuit with n <= 5 and arbitrary successor domains, no_overlap, "
         "cumulative with up to 12+ simultaneously active literals; non-trivial = >=1 constraint and >=2 variables "
-        "with non-singleton domains; distinct by model")
+        "with non-singleton domains; distinct by model; collection arguments in presentation styles (list, tuple, "
+        "generator, map, reversed, iter, dict values, reused scratch list) on 30% of the models; 500 x budget HISTORIES "
+        "on one Model (2-3 rounds of declare/add/solve via SAT; half start with an encoding that creates auxiliaries): "
+        "the clause list of every solve must decode to exactly the CP solutions of the model as it is then "
+        "(:after_previous_solve when the fresh model passes); R_trace only on first solves")
 FN = "SATEncoder.solve"
 WEIGHTS = {"rel": 34, "simple": 10, "alldiff": 8, "sumeq": 8, "sumle": 7, "sumge": 7, "circuit": 10, "noov": 7, "cum": 9}
 
@@ -39,7 +43,8 @@ def gen_cases(rng, n, big):
             cons = [rng.choice(cons)]
         hints = K.gen_hints(rng, vars_, plant) if rng.random() < 0.2 else None
         cases.append({"vars": vars_, "cons": cons, "hints": hints, "limit": rng.choice([1, 1, 1, 3]), "solver": "sat",
-                      "hidden": (K.gen_hidden(rng, vars_) if hints is None else [])})
+                      "hidden": (K.gen_hidden(rng, vars_) if hints is None else []),
+                      "styles": ([K.styles_for(c, rng) for c in cons] if rng.random() < 0.3 else None)})
     return cases
 
 
@@ -145,6 +150,12 @@ def evaluate(cases):
 
 def report(ctx, case, klass, what, rep):
     """ctx.fail, after shrinking the first few failing inputs (same symptom must persist)."""
+    if case.get("family") == "history":
+        # does the same model fail when it is built and encoded fresh?  If not, the history is to blame
+        fresh = {k: v for k, v in case.items() if k not in ("family", "round")}
+        if not any(symptom(k) == symptom(klass) for k, _, _ in evaluate([fresh])[0][0]):
+            klass += ":after_previous_solve"
+        return ctx.fail(FN, klass, what, rep)
     if getattr(ctx, "_shrunk", 0) >= 5 or ctx.known_match(FN, klass) is not None:
         return ctx.fail(FN, klass, what, rep)
     ctx._shrunk = getattr(ctx, "_shrunk", 0) + 1
@@ -167,10 +178,22 @@ def report(ctx, case, klass, what, rep):
     return ctx.fail(FN, klass, what, rep)
 
 
-def run_cases(ctx, cases, attribute=True):
+def run_histories(ctx, hcases):
+    """Histories on one Model object: the clause list of EACH solve is captured and its decoded model set is
+    compared with the CP solutions of the model as it is at that solve."""
     K.preload()
-    outs = run_pool(K.impl, cases, timeout=K.SAT_TIMEOUT + 20.0)
+    houts = run_pool(K.impl_history, hcases, timeout=3 * K.SAT_TIMEOUT + 20.0)
+    cases, outs, owner = K.flatten_histories(hcases, houts)
+    run_cases(ctx, cases, outs=outs, hist=[hcases[i] for i in owner])
+
+
+def run_cases(ctx, cases, attribute=True, outs=None, hist=None):
+    K.preload()
+    if outs is None:
+        outs = run_pool(K.impl, cases, timeout=K.SAT_TIMEOUT + 20.0)
     pcss, replies = K.run_model(cases, outs, mode=5)
+    hist = hist or [None] * len(cases)
+    hist_of = {id(c): h for c, h in zip(cases, hist)}
     cov = ctx.cov.setdefault("coverage_table", {})
     pending = []
     agree = ctx.cov.setdefault("r_trace_agree", 0)
@@ -179,6 +202,11 @@ def run_cases(ctx, cases, attribute=True):
         rep = {"case": case, "proto": pcs, "impl": out,
                "model": {"sols": d["sols"], "proj": d["proj"], "mirror_cnf": d["mirror"], "sat_model_checks": d["sat_model_checks"]}}
         st = out[1]["status"] if out[0] == "ok" else err_kind(out)
+        if hist_of.get(id(case)) is not None:  # replay needs the whole history; the judged model is the snapshot
+            rep = {**rep, "case": hist_of[id(case)], "snapshot": case, "round": case["round"]}
+            ctx.count(f"history_round:{case['round']}")
+        if case.get("styles") and any(case["styles"]):
+            ctx.count("presentation_styles:plain_case")
         ctx.count(f"status:{st}")
         ctx.count("cnf:" + ("captured" if out[0] == "ok" and out[1]["cnf"] is not None else "none"))
         ctx.count("truth:" + ("feasible" if d["sols"] else "infeasible"))
@@ -190,6 +218,10 @@ def run_cases(ctx, cases, attribute=True):
             key = f"{K.tag_of(pc)}|sat"
             cov[key] = cov.get(key, 0) + 1
         fails, trace = judgement(case, pcs, out, d)
+        if case.get("round"):
+            # later solves of a history: stale auxiliaries of earlier encodings are part of the clause list, so
+            # the literal comparison with the fresh mirror (R_trace) does not apply; R_prop does
+            trace = None
         for klass, what, needs in fails:
             if needs and attribute and pcs:
                 pending.append((case, pcs, klass, what, rep))
@@ -200,7 +232,8 @@ def run_cases(ctx, cases, attribute=True):
         elif trace is False:
             ctx.tdiv(FN, {"case": case, "proto": pcs, "captured_cnf": (out[1]["cnf"] if out[0] == "ok" else None),
                           "mirror_cnf": d["mirror"]})
-        ctx.case([case["vars"], case["cons"], case.get("hidden") or []], K.nontrivial(case),
+        ctx.case([case["vars"], case["cons"], case.get("hidden") or [], case.get("styles"), case.get("round"),
+                  (hist_of.get(id(case)) or {}).get("history")], K.nontrivial(case),
                  {"case": case, "clauses": (len(out[1]["cnf"]) if out[0] == "ok" and out[1]["cnf"] is not None else None),
                   "cp_solutions": len(d["sols"]), "cnf_projected_models": (len(d["proj"]) if d["proj"] is not None else None)})
     if pending:
@@ -209,7 +242,10 @@ def run_cases(ctx, cases, attribute=True):
             if len(case["cons"]) == 1:
                 continue
             for i in range(len(case["cons"])):
-                subs.append({**case, "cons": [case["cons"][i]]})
+                sub = {**case, "cons": [case["cons"][i]]}
+                if case.get("styles"):
+                    sub["styles"] = [case["styles"][i]] if i < len(case["styles"]) else None
+                subs.append(sub)
                 owners.append((n, i))
         found = {}
         if subs:
@@ -243,6 +279,15 @@ def run(ctx, budget):
         vars_, cons = K.gen_scaled(ctx.rng)
         scaled.append({"vars": vars_, "cons": cons, "hints": None, "limit": 1, "solver": "sat", "family": "scaled"})
     run_cases(ctx, scaled)
+    # fixed share, both tiers: histories on one Model (every solve through the SAT encoder)
+    hs = []
+    for _ in range(500 * budget):
+        h = K.gen_history(ctx.rng, big=True)
+        for rnd in h["history"]:
+            rnd["solver"] = "sat"
+            rnd["limit"] = 1
+        hs.append(h)
+    run_histories(ctx, hs)
     summarise(ctx)
 
 
@@ -261,4 +306,6 @@ def replay(ctx, body):
     if "case" not in body:  # a no-failing-input report: replay its first diverging input
         body = body["trace_divergences"][0]["detail"]
     ctx._shrunk = 5  # replay exactly the recorded input, no further shrinking
+    if "history" in body["case"]:
+        return run_histories(ctx, [body["case"]])
     run_cases(ctx, [body["case"]])
